@@ -155,7 +155,9 @@ def run_selftest(pid: str, repo_root: str) -> Dict[str, Any]:
     jobs = [(pid, repo_root, v) for v in variants]
     results: List[Dict[str, Any]] = []
     if jobs:
-        with ProcessPoolExecutor(max_workers=min(16, len(jobs))) as ex:
+        # one fresh process per variant: every variant is a different source tree, and nothing computed for one tree
+        # (module-level memo tables of the checkers) may leak into the analysis of the next
+        with ProcessPoolExecutor(max_workers=min(int(os.environ.get("SELFTEST_WORKERS", "16")), len(jobs)), max_tasks_per_child=1) as ex:
             results = list(ex.map(_run_one, jobs))
     fire = [r for r in results if r["kind"] == "fire" and r["outcome"] != "skipped"]
     silent = [r for r in results if r["kind"] == "silent" and r["outcome"] != "skipped"]
